@@ -18,7 +18,10 @@ def main():
     muts = json.load(open(os.path.join(ROOT, "selftest", "mutants.json")))
     only = sys.argv[1] if len(sys.argv) > 1 else None
     bad = 0
-    for m in muts:
+    start = int(os.environ.get("SELFTEST_FROM", "0"))   # resume an interrupted run at this index
+    for idx, m in enumerate(muts):
+        if idx < start:
+            continue
         if only and only not in m["fn"] and only != m["module"]:
             continue
         importlib.import_module("contracts." + m["module"])
